@@ -192,6 +192,10 @@ func applyOps(ss mdSetter, ops []mdOp) {
 		case "setTrailer":
 			ss.SetTrailer(md)
 		}
+		// the metadata value stays the handler's: it goes on using it (here: for something else entirely), which is no
+		// business of what was set or sent with it
+		md.Set(op.K, "reused-by-the-handler")
+		md.Set("scratch", "x")
 	}
 }
 
